@@ -902,6 +902,8 @@ fn burst() -> impl Strategy<Value = Burst> {
 }
 
 pub fn run(ctx: &mut Ctx) {
+    // free-running sub-checks: one sound observation decides, reproducible or not
+    ctx.decisive_kinds = vec!["deadlock", "not-linearizable"];
     ctx.assume("schedules are owned at probe granularity: the probe points sit exactly at the places where announce, scrape and clean hold no lock (read from swarm.rs); atomicity inside a locked region is taken from parking_lot");
     ctx.assume("deadlock freedom is sampled by the stress driver (watchdog on thread states), not shown; carried state between bursts uses the first consistent end state");
     ctx.run_regress::<SchedCase, _>("schedules", prop_sched);
